@@ -87,7 +87,13 @@ def parse_mir_text(text, crate, fns=None):
             continue
         if line.startswith(('const ', 'static ')):
             # named constant item:  `const path::NAME: T = {`  -> a body evaluated on demand
-            m = re.match(r'^(?:const|static) (?:mut )?([^:]+(?:::[^:]+)*?): (.*) = \{$', line)
+            m1 = re.match(r'^(?:const|static) (?:mut )?(.+): ([^=]+?) = (const .*);$', line)
+            if m1 and ('const ' + m1.group(1).strip()) not in fns:
+                f1 = Fn('const ' + m1.group(1).strip(), [], m1.group(2)); f1.crate = crate
+                f1.raw['bb0'] = ['_0 = ' + m1.group(3), 'return']; f1.locals['_0'] = m1.group(2)
+                fns[f1.name] = f1
+                cur = None; continue
+            m = re.match(r'^(?:const|static) (?:mut )?(.+): ([^=]+?) = \{$', line)
             if m:
                 cur = Fn('const ' + m.group(1).strip(), [], m.group(2)); cur.crate = crate
                 keep = cur.name not in fns
